@@ -13,6 +13,7 @@ import (
 	"sort"
 	"strings"
 	"sync"
+	"sync/atomic"
 	"time"
 	"unsafe"
 )
@@ -170,6 +171,7 @@ type Sched struct {
 	parkClock int
 	aborting  bool
 	wg        sync.WaitGroup
+	progress  atomic.Uint64 // scheduling steps taken (read by the watchdog)
 
 	Trace   []Step
 	Choices []uint8
@@ -462,6 +464,7 @@ type CheckerError struct{ Msg string }
 func (e *CheckerError) Error() string { return e.Msg }
 
 const watchdog = 20 * time.Second
+const watchdogTicks = 6
 
 // loop runs the execution to quiescence (or until decide prunes it).
 // It returns true when the execution ran to quiescence.
@@ -531,6 +534,7 @@ func (s *Sched) pick() (Alt, pickStatus) {
 		s.Trace = append(s.Trace, Step{Task: a.T.Path, Name: a.T.Name, Op: a.T.pend.String(), Case: a.Case, NAlts: len(buf), Choice: c})
 	}
 	s.steps++
+	s.progress.Add(1)
 	s.running = a.T
 	if !a.T.Free {
 		s.main = a.T
@@ -547,16 +551,29 @@ func (s *Sched) loop(maxSteps int) (complete bool) {
 		return st == pickComplete
 	}
 	a.T.wake <- a
-	timer := time.NewTimer(watchdog)
+	// The watchdog looks at progress, not at elapsed time: it fires only when no
+	// scheduling step was taken during watchdogTicks consecutive intervals, so a
+	// loaded machine cannot trip it while a natively blocked task still does.
+	timer := time.NewTicker(watchdog)
 	defer timer.Stop()
-	select {
-	case c := <-s.endCh:
-		return c
-	case <-timer.C:
-		bufst := make([]byte, 1<<16)
-		n := runtime.Stack(bufst, true)
-		s.err = &CheckerError{"watchdog: the execution did not end within " + watchdog.String() + " (a task blocked natively?)\n" + string(bufst[:n])}
-		return false
+	last, idle := s.progress.Load(), 0
+	for {
+		select {
+		case c := <-s.endCh:
+			return c
+		case <-timer.C:
+			if p := s.progress.Load(); p != last {
+				last, idle = p, 0
+				continue
+			}
+			if idle++; idle < watchdogTicks {
+				continue
+			}
+			bufst := make([]byte, 1<<16)
+			n := runtime.Stack(bufst, true)
+			s.err = &CheckerError{"watchdog: no scheduling step for " + (watchdog * watchdogTicks).String() + " (a task blocked natively?)\n" + string(bufst[:n])}
+			return false
+		}
 	}
 }
 
@@ -572,7 +589,7 @@ func (s *Sched) abortAll() {
 		t.wake <- Alt{abort: true}
 		select {
 		case <-s.ctl:
-		case <-time.After(watchdog):
+		case <-time.After(watchdog * watchdogTicks):
 			if s.err == nil {
 				s.err = &CheckerError{"abort: task " + t.Path + " did not exit"}
 			}
